@@ -369,15 +369,77 @@ func gv5(w *World, r *Report) {
 			fields = append(fields, f.Name())
 		}
 	}
+	// per field, under the facts "the option leaves it unset" / "the option sets it":
+	// what MergeGovParams finally leaves in new.f (values resolved through helpers)
+	ftype := map[string]types.Type{}
+	for _, f := range structFields(gp) {
+		ftype[f.Name()] = f.Type()
+	}
 	for _, f := range fields {
-		st := w.findStore(mf, "p1."+f, "p0."+f)
-		ok := st != nil
-		if ok {
-			// only when the new value is unset
-			zero := w.condCanonHolds(st.Block(), "(p1."+f+" == 0)", 1) || w.entryOnlyVia(st.Block(), "(p1."+f+" == nil)", "p1."+f+".IsZero()")
-			ok = zero && len(w.storesTo(mf, "p1."+f)) == 1
+		f := f
+		ev := func(in ssa.Instruction) string {
+			st, ok := in.(*ssa.Store)
+			if !ok {
+				return ""
+			}
+			fa, ok := st.Addr.(*ssa.FieldAddr)
+			if !ok || w.Canon(fa) != "p1."+f {
+				return ""
+			}
+			return "SET:" + w.Canon(w.ResolveOnPath(st.Val))
 		}
-		r.Check(ok, "Gv-5", "MergeGovParams:"+f, "an unset "+f+" keeps the current value; a set one is kept", "MergeGovParams does not fill an unset "+f+" from the current parameters (the parameter would silently become zero)", fnSite(w, mf))
+		final := func(facts ...atom) (string, bool) {
+			fe := w.newFactEval(nil, facts...)
+			saved := w.branchMarkers
+			w.branchMarkers = false
+			e := &enumerator{w: w, eval: fe.eval, event: ev, max: 2000, complete: true, evCache: map[ssa.Instruction]string{}, hasEv: map[*ssa.Function]int{}, pathSensitiveEvents: true}
+			res, n, agree := "", 0, true
+			e.walkFn(mf, nil, 0, func(evs []string, ret *ssa.Return, term string) {
+				if term == "panic" || term == "loop" {
+					return
+				}
+				v := "p1." + f // untouched
+				if len(evs) > 0 {
+					v = strings.TrimPrefix(evs[len(evs)-1], "SET:")
+				}
+				if n > 0 && v != res {
+					agree = false
+				}
+				res = v
+				n++
+			})
+			w.cur = nil
+			w.branchMarkers = saved
+			return res, e.complete && agree && n > 0 && len(fe.used) > 0
+		}
+		ok := true
+		why := ""
+		_, isPtr := ftype[f].Underlying().(*types.Pointer)
+		type sc struct {
+			facts []atom
+			want  string
+		}
+		var scs []sc
+		if isPtr {
+			scs = []sc{
+				{[]atom{A("p1."+f, "==", "nil")}, "p0." + f},
+				{[]atom{A("p1."+f, "!=", "nil"), A("p1."+f, "==", "0")}, "p0." + f},
+				{[]atom{A("p1."+f, "!=", "nil"), A("p1."+f, "!=", "0")}, "p1." + f},
+			}
+		} else {
+			scs = []sc{
+				{[]atom{A("p1."+f, "==", "0")}, "p0." + f},
+				{[]atom{A("p1."+f, "!=", "0")}, "p1." + f},
+			}
+		}
+		for _, c := range scs {
+			got, decided := final(c.facts...)
+			if !decided || got != c.want {
+				ok = false
+				why = fmt.Sprintf("under %v the merged %s is %q (decided: %v), expected %s", c.facts, f, got, decided, c.want)
+			}
+		}
+		r.Check(ok, "Gv-5", "MergeGovParams:"+f, "an unset "+f+" keeps the current value; a set one is kept", "MergeGovParams does not fill an unset "+f+" from the current parameters (the parameter would silently become zero): "+why, fnSite(w, mf))
 	}
 	w.codecSymmetric(r, "Gv-5", pkgCT, "GovParams", "MarshalJSON", "UnmarshalJSON", fields)
 	w.codecSymmetric(r, "Gv-5", pkgCT, "GovParams", "toProto", "fromProto", fields)
